@@ -24,6 +24,8 @@ func init() {
 				Edits: []Edit{{File: "response/netconf.go", Old: "\tpatterns := getNetconfPatterns()\n\n\tr.Failed = &OperationError{", New: "\tpatterns := getNetconfPatterns()\n\n\tif patterns.rpcErrors.Find(b) == nil {\n\t\treturn\n\t}\n\n\tr.Failed = &OperationError{"}}},
 			{ID: "C02-delimiter-before-preference", Desc: "the delimiter is installed before the preferred-version override", Rule: "C02/found-netconf-version",
 				Edits: []Edit{{File: "driver/netconf/capabilities.go", Old: "\tswitch d.SelectedVersion {\n\tcase V1Dot0:\n\t\td.Channel.PromptPattern = ncPatterns.v1Dot0Delim\n\tcase V1Dot1:\n\t\td.Channel.PromptPattern = ncPatterns.v1Dot1Delim\n\t}\n\n\treturn nil", New: "\tif d.ServerHasCapability(v1Dot1Cap) {\n\t\td.Channel.PromptPattern = ncPatterns.v1Dot1Delim\n\t} else {\n\t\td.Channel.PromptPattern = ncPatterns.v1Dot0Delim\n\t}\n\n\treturn nil"}}},
+			{ID: "C02-size-clamped", Desc: "a chunk size larger than what is left is clamped to the data received", Rule: "C02/size-as-declared",
+				Edits: []Edit{{File: "response/netconf.go", Old: "\t\tif chunkSize <= 0 || chunkSize > len(d)-cursor {", New: "\t\tif chunkSize > len(d)-cursor {\n\t\t\tchunkSize = len(d) - cursor - len(\"\\n##\")\n\t\t}\n\n\t\tif chunkSize <= 0 {"}}},
 			{ID: "C02-eom-open-ended", Desc: "1.1 end-of-chunks pattern loses its end-of-line anchor", Rule: "C02/eom-pattern-shape",
 				Edits: []Edit{{File: "driver/netconf/driver.go", Old: "v1Dot1Delim = `(?m)^##$`", New: "v1Dot1Delim = `(?m)^##`"}}},
 			{ID: "C02-eom-1dot0-short", Desc: "1.0 end-of-message pattern accepts a single ]]>", Rule: "C02/eom-pattern-shape",
@@ -100,6 +102,8 @@ func runC02(c *Ctx, r *Report) {
 	sortFns(fns)
 	r.Rule("C02/chunk-whole", "what the decode loop appends to the payload is the chunk's sub-slice of the received data as it is", 1)
 	checkChunkAppendedWhole(c, r, "C02/chunk-whole", fns)
+	r.Rule("C02/size-as-declared", "the chunk the decode loop appends is data[cursor : cursor+size] with size the converted header value itself on every path", 1)
+	checkChunkSizeAsDeclared(c, r, "C02/size-as-declared", fns)
 	names := []string{}
 	for _, fn := range fns {
 		names = append(names, shortFn(fn))
